@@ -285,7 +285,7 @@ def series_variants(tier):
             rep(db, values=(NAT, NAT, d('2020-01-03')))]
     sb = S(('x', 'y', 'z'), '<U1', ix, name='n')
     out += [sb, rep(sb, dtype='<U3'), rep(sb, values=('x', 'y', 'zz'), dtype='<U2'), rep(sb, dtype='object')]
-    if tier == 'thorough':
+    if True:     # hierarchical index: both tiers (HE hashing used to fail on it)
         hx = IH((('a', 1), ('a', 2), ('b', 1)), dtypes=('<U1', 'int64'))
         out += [rep(base, index=hx), rep(base, index=rep(hx, labels=(('a', 1), ('a', 2), ('b', 2)))),
                 rep(base, index=rep(hx, name='h')), rep(base, index=hx, values=(1.5, NAN, 4.0))]
@@ -341,10 +341,10 @@ def frame_variants(tier, cls='Frame'):
             rep(b2, cols=(('datetime64[D]', (d('2020-01-01'), NAT)), ('float64', (NAN, 1.0)))),
             rep(b2, cols=(('datetime64[D]', (d('2020-01-01'), NAT)), ('float64', (1.0, NAN)))),
             rep(b2, cols=(('datetime64[D]', (NAT, NAT)), ('float64', (NAN, NAN))))]
+    hx = IH((('a', 1), ('a', 2), ('b', 1), ('b', 2)), dtypes=('<U1', 'int64'))
+    out += [rep(base, columns=hx), rep(base, columns=rep(hx, labels=(('a', 1), ('a', 2), ('b', 1), ('b', 3)))),
+            rep(base, columns=hx, layout='coarse'), rep(base, columns=rep(hx, name='h'))]
     if tier == 'thorough':
-        hx = IH((('a', 1), ('a', 2), ('b', 1), ('b', 2)), dtypes=('<U1', 'int64'))
-        out += [rep(base, columns=hx), rep(base, columns=rep(hx, labels=(('a', 1), ('a', 2), ('b', 1), ('b', 3)))),
-                rep(base, columns=hx, layout='coarse'), rep(base, columns=rep(hx, name='h'))]
         for j in range(4):
             for i in range(2):
                 v = {0: 7, 1: 7, 2: 7.5, 3: 'q'}[j]
